@@ -303,6 +303,8 @@ def jobs(tier, seed):
     out.append(Job("C13_full_exc", NOOP + '#include "C13_full_exc.inc"\n', [dict(name="refused registration leaves no trace (exceptions)", fn=check_full_exc, unwind=400)], native=False,
                    flags=["-D_GLIBCXX_EXTERN_TEMPLATE=0"]))
     out.append(Job("C13_stale_distance", fsrc, [dict(name="noop: stale owner at any incarnation distance", fn=check_stale_distance, unwind=400)], native=False))
+    from specs import C12
+    out.append(Job("C13_bm_signature", '#include "C12_bm.inc"\n', [dict(name="BM registration and release use the same guest signature", fn=C12.check_bm_signature, unwind=200)], native=False))
     out.append(Job("C13_two_sandboxes", fsrc, [dict(name="noop: two live sandboxes, one destroyed", fn=check_two_sandboxes, unwind=400)], native=False))
     esrc = NOOP + '#include "C13_full_exc.inc"\n'
     out.append(Job("C13_dup_exc", esrc, [dict(name="refused duplicate registration leaves no trace (exceptions)", fn=check_refused_exc, kw=dict(k="k_cb_dup_exc", nvals=3), unwind=400),
